@@ -491,6 +491,8 @@ def check_history(pid, r, strict_pdus=True, judge_recv=True):
                 cause = "other"
                 if lab.startswith("acc") and not r.evts(lab, "EVT_REQUESTED"):
                     cause = "request-not-received-within-acse-timeout"
+                if lab.startswith("req") and any(h.get("origin") == "_negotiate_as_requestor" for h in r.evts(lab, "EVT_ABORTED")):
+                    cause = "aborted-during-negotiation"
                 out.append(C.v("conn-order", "%s/close-count/%s/0/%s" % (pid, role, cause), "%s: connection opened but EVT_CONN_CLOSE never fired" % lab))
             if closes:
                 late = [n for n in names[closes[0] + 1:] if n in ("EVT_DATA_SENT", "EVT_DATA_RECV", "EVT_PDU_SENT", "EVT_PDU_RECV", "EVT_CONN_OPEN")]
